@@ -338,7 +338,7 @@ def _name_carried(ctx, exits, effects, tag):
 def _same_terms(va, ta, tb, given=None):
     """equal as values: normal-form equality, else equality of every pair of gated alternatives that can occur together
     (`given`: a condition that holds wherever the two values are used - the reach condition of the statement)"""
-    from .lib import cond_implies
+    cond_implies = _implies
     ctx = va.ctx
     if ctx.eq(ta, tb):
         return True
@@ -379,18 +379,75 @@ def _same_terms(va, ta, tb, given=None):
     return True
 
 
+# class invariants usable in conditions: (attribute slot, lower bound, how it is confirmed on the current tree)
+_INV = {"_nvdim": 1}
+_INV_OK = {}         # repo digest -> set of confirmed slots
+
+
+def confirmed_invariants(repo):
+    """`x._nvdim >= 1`: holds when the only store to the slot in the package is `self._nvdim = nvdim` in Field.__init__ and a
+    raise under `nvdim < 1` dominates it (confirmed from the source of the tree under analysis on every run; an invariant
+    that does not confirm is simply not used)"""
+    key = (repo.root, repo.digest)
+    if key in _INV_OK:
+        return _INV_OK[key]
+    ok = set()
+    try:
+        from .lib import FV
+        stores = []
+        for q, fi in repo.funcs.items():
+            for n in ast.walk(fi.node):
+                if isinstance(n, ast.Attribute) and n.attr == "_nvdim" and isinstance(n.ctx, (ast.Store, ast.Del)):
+                    stores.append((q, n))
+        if len(stores) == 1 and stores[0][0] == "field.Field.__init__":
+            v = FV(repo, "field.Field.__init__")
+            st = next((s for s in v.stmts() if isinstance(s, ast.Assign) and any(t is stores[0][1] for t in s.targets)), None)
+            if st is not None and isinstance(st.value, ast.Name) and st.value.id == "nvdim":
+                g, _ = v.guard("nvdim < 1", exc=("ValueError", "TypeError"), before=st)
+                if g:
+                    ok.add("_nvdim")
+    except Exception:        # noqa: BLE001 - not confirmed, not used
+        ok = set()
+    _INV_OK[key] = ok
+    return ok
+
+
+def _int_vars(va, terms):
+    """integer quantities of conditions: lengths (>= 0; bool(x) == (len(x) != 0) for sized objects) and slots with a confirmed
+    lower bound -> (variables, {atom id: lower bound})"""
+    ctx = va.ctx
+    inv = confirmed_invariants(va.repo)
+    out, lows = [], {}
+    for t in terms:
+        for a in sorted(ctx.all_atoms(t)):
+            hd = ctx.atoms[a][0]
+            if hd[0] == "attr" and hd[1] in inv and a not in lows:
+                lows[a] = _INV[hd[1]]
+                out.append(ctx.var(a))
+    n_inv = len(out)
+    for t in terms:
+        for a in sorted(ctx.all_atoms(t)):
+            hd = ctx.atoms[a][0]
+            if hd[0] == "call" and hd[1] == "len" and not any(va.eq(ctx.var(a), x) for x in out):
+                out.append(ctx.var(a))
+    out = out[:min(n_inv, 2) ] + out[n_inv:n_inv + 3]
+    return out, {k: v_ for k, v_ in lows.items() if any(x.single_atom() == k for x in out)}
+
+
+def _implies(va, a, b):
+    from .lib import cond_implies
+    vs, lows = _int_vars(va, (a, b))
+    if not lows:
+        return cond_implies(va, a, b)
+    return cond_implies(va, a, b, vs, lo=0, lows=lows)
+
+
 def _same_cond(va, ca, cb):
     from .lib import cond_equiv
     if va.eq(ca, cb):
         return True
-    # lengths that are compared with numbers are integer quantities (bool(x) == (len(x) != 0) for sized objects)
-    lens = []
-    for t in (ca, cb):
-        for a in va.ctx.all_atoms(t):
-            hd = va.ctx.atoms[a][0]
-            if hd[0] == "call" and hd[1] == "len" and not any(va.eq(va.ctx.var(a), x) for x in lens):
-                lens.append(va.ctx.var(a))
-    return cond_equiv(va, ca, cb, lens[:3], lo=0)
+    vs, lows = _int_vars(va, (ca, cb))
+    return cond_equiv(va, ca, cb, vs, lo=0, lows=lows)
 
 
 def _same_items(va, a, b):
@@ -476,7 +533,7 @@ def _equivalent(repo_cur, repo_ref, qual):
                         for cq, ci in repo_cur.classes.items():
                             if cq.split(".")[-1] == cls_ and m_ in ci.methods and repo_cur.is_new_function(ci.methods[m_].qual):
                                 return False, f"call to the new method {hd[1]} could not be inlined"
-    from .lib import cond_implies as _imp
+    _imp = _implies
     false_ = ctx.mk(("const", False))
     # effects: `x.f = a if c else b` is `if c: x.f = a else: x.f = b` - every effect is split into the gphi-free alternatives
     # of its terms; then the two sequences must match item by item, where two effects that can never both happen in one
